@@ -64,3 +64,35 @@ def fail_with(msg="boom"):
 def retry_once(token=0):
     from pynenc.exceptions import RetryError
     raise RetryError("again")
+
+
+# --- bodies instrumented for the concurrency checks ---------------------------------------------
+BODY_HOOK = [None]  # harness callback(event, invocation_id, extra)
+
+
+def _cur_inv_id():
+    from pynenc import context
+    app = context.get_current_app()
+    inv = context.get_dist_invocation_context(app.app_id) if app else None
+    return inv.invocation_id if inv else None
+
+
+def probed(x=0):
+    """body that reports enter/exit to the harness (and gives the scheduler a chance in between)"""
+    h = BODY_HOOK[0]
+    inv = _cur_inv_id()
+    if h:
+        h("enter", inv, x)
+        h("middle", inv, x)
+        h("exit", inv, x)
+    return x
+
+
+def probed_keyed(k=0, v=0):
+    h = BODY_HOOK[0]
+    inv = _cur_inv_id()
+    if h:
+        h("enter", inv, (k, v))
+        h("middle", inv, (k, v))
+        h("exit", inv, (k, v))
+    return [k, v]
